@@ -66,19 +66,37 @@ static inline struct vs_nstr vs_nstr_substr(const struct vs_nstr *s, size_t pos,
 }
 static inline struct vs_nstr vs_nstr_substr1(const struct vs_nstr *s, size_t pos) { return vs_nstr_substr(s, pos, VS_NPOS); }
 static inline struct vs_nstr *vs_nstr_assign(struct vs_nstr *d, const struct vs_nstr *s) { *d = *s; return d; }
+extern size_t g_w;
 static inline char *vs_nstr_c_str(const struct vs_nstr *s)
 {
     char *p = malloc(s->size + 1);
     __CPROVER_assume(p != 0);
     p[s->size] = 0;
+    g_w = s->size;            /* ghost: where the terminator sits (witness for the numeral scanners) */
     return p;
 }
-/* strtol on a NUL-terminated array of n+1 bytes: the scan stops at the terminator at the latest (g_w = n is the witness);
-   the result and the end pointer are otherwise unconstrained; ghosts record them for the callers' contracts */
-extern size_t g_w; extern long g_strtol_ret; extern char g_strtol_endc;
+/* strtol / strtoul on a NUL-terminated array of n+1 bytes: the scan stops at the terminator at the latest (g_w = n is the witness, set by
+   c_str()).  WHAT the text says is abstract: an optional sign, a magnitude, "the magnitude does not fit unsigned long" -- the ghosts
+   g_num_neg / g_num_mag / g_num_ovf, unconstrained; the two functions differ in how they turn that into their result (C11 7.22.1.4):
+     strtol : sign * magnitude, saturating at LONG_MIN / LONG_MAX
+     strtoul: the magnitude, NEGATED IN THE RETURN TYPE for a '-' sign (so "-1" yields ULONG_MAX), ULONG_MAX when it does not fit
+   The contracts of the callers are stated over what the text says, not over what the library call returns. */
+extern size_t g_w; extern char g_strtol_endc;
+extern bool g_num_neg, g_num_ovf; extern unsigned long g_num_mag;
+#define VS_LONG_MAX 0x7fffffffffffffffUL
+/* the number the text denotes lies in [0, 65535] */
+#define VS_TEXT_IS_PORT (!g_num_ovf && g_num_mag <= 65535 && (!g_num_neg || g_num_mag == 0))
 long vs_strtol(const char *p, char **end, int base)
 __CPROVER_requires(g_w <= NSTR_MAX && __CPROVER_r_ok(p, g_w + 1) && p[g_w] == 0 && __CPROVER_w_ok(end, sizeof(*end)))
-__CPROVER_assigns(*end, g_strtol_ret, g_strtol_endc)
+__CPROVER_assigns(*end, g_strtol_endc, g_num_neg, g_num_ovf, g_num_mag)
 __CPROVER_ensures(IN_RANGE(p, *end, p + g_w))
-__CPROVER_ensures(g_strtol_ret == RET && g_strtol_endc == *(*end));
+__CPROVER_ensures(g_strtol_endc == *(*end))
+__CPROVER_ensures(RET == (g_num_neg ? ((g_num_ovf || g_num_mag > VS_LONG_MAX) ? (long)(-VS_LONG_MAX - 1) : -(long)g_num_mag)
+                                    : ((g_num_ovf || g_num_mag > VS_LONG_MAX) ? (long)VS_LONG_MAX : (long)g_num_mag)));
+unsigned long vs_strtoul(const char *p, char **end, int base)
+__CPROVER_requires(g_w <= NSTR_MAX && __CPROVER_r_ok(p, g_w + 1) && p[g_w] == 0 && __CPROVER_w_ok(end, sizeof(*end)))
+__CPROVER_assigns(*end, g_strtol_endc, g_num_neg, g_num_ovf, g_num_mag)
+__CPROVER_ensures(IN_RANGE(p, *end, p + g_w))
+__CPROVER_ensures(g_strtol_endc == *(*end))
+__CPROVER_ensures(RET == (g_num_ovf ? ~0UL : (g_num_neg ? 0UL - g_num_mag : g_num_mag)));
 #endif
